@@ -46,7 +46,6 @@ m = {
     "not_applicable": na,
     "notes": tab.get("notes", ""),
 }
-if not na:
-    del m["not_applicable"]
+# (kept even when empty: "every property is claimed" is then stated, not implied)
 json.dump(m, open(os.path.join(root, "MANIFEST.json"), "w"), indent=1, ensure_ascii=False)
 print("claimed", [c["property_id"] for c in checks], "not_applicable", [x["property_id"] for x in na])
